@@ -123,3 +123,300 @@ Fixpoint enum_true {A} (f : A -> bool) (i : nat) (l : list A) : list nat :=
   | [] => []
   | x :: r => (if f x then [i] else []) ++ enum_true f (S i) r
   end.
+
+(* ====================================================================== walking a history with the implementation's observations *)
+From HIDI Require Import Proofs.DeviceBasics Proofs.DeviceInv Proofs.DevicePlay Proofs.DeviceActions Proofs.DeviceWf Proofs.DevicePanic.
+
+(* context maintained from the HISTORY and the implementation's OBSERVATIONS only (never from the model's state) *)
+Record wctx := {
+  w_kt : list N;                 (* keys down *)
+  w_held : list action;          (* actions of the action keys down *)
+  w_prev : ostep;                (* observation after the previous event *)
+  w_trk : list (N * pair);       (* per key down: the pair its press resolved to in the observed state at the press *)
+  w_exp : Z * Z * N * nat;       (* playing parameters expected by the property's wording (spec_action / reset) *)
+  w_R : list pair                (* receiver-side sounding set reconstructed from the implementation's bytes *)
+}.
+
+Definition state_of_obs (c : config) (o : ostep) : state :=
+  {| octave := o_oct o; semitone := o_semi o; channel := o_ch o; velocity := u8 (d_velocity c);
+     mapidx := N.to_nat (o_map o); learning := false; noteT := []; analogT := []; counter := [];
+     actionT := []; ccZ := []; keyT := [] |}.
+
+Definition state_of_exp (c : config) (p : Z * Z * N * nat) : state :=
+  let '(o, st, ch, m) := p in
+  {| octave := o; semitone := st; channel := ch; velocity := u8 (d_velocity c);
+     mapidx := m; learning := false; noteT := []; analogT := []; counter := [];
+     actionT := []; ccZ := []; keyT := [] |}.
+
+Definition first_complete (l : list action) : option pairkind :=
+  if pair_complete l PMapping then Some PMapping
+  else if pair_complete l POctave then Some POctave
+  else if pair_complete l PSemitone then Some PSemitone
+  else if pair_complete l PChannel then Some PChannel else None.
+
+Definition reset4 (pk : pairkind) (p : Z * Z * N * nat) : Z * Z * N * nat :=
+  let '(o, st, ch, m) := p in
+  match pk with PMapping => (o, st, ch, 0%nat) | POctave => (0%Z, st, ch, m) | PSemitone => (o, 0%Z, ch, m) | PChannel => (o, st, 0, m) end.
+
+Definition init_ctx (c : config) : wctx :=
+  {| w_kt := []; w_held := []; w_prev := observe c (init c) silent; w_trk := [];
+     w_exp := (d_octave c, d_semitone c, Z.to_N (d_channel c - 1), d_mapping c); w_R := [] |}.
+
+Definition is_press (e : ev) : bool := match e with EKey _ _ v => (v =? 1)%Z | _ => false end.
+Definition is_release (e : ev) : bool := match e with EKey _ _ v => (v =? 0)%Z | _ => false end.
+
+Definition swallowed (c : config) (w : wctx) (e : ev) : bool := is_press e && exit_complete c (next_keys_r (w_kt w) e).
+
+Definition ev_action (c : config) (e : ev) : option action :=
+  match e with EKey _ k v => if (v =? 2)%Z then None else find_action c k | _ => None end.
+
+Definition next_ctx (c : config) (w : wctx) (e : ev) (o : ostep) : wctx :=
+  let sw := swallowed c w e in
+  let held' := match ev_action c e with
+               | Some a => if sw then w_held w else if is_press e then sadd action_eqb a (w_held w)
+                           else if is_release e then srem action_eqb a (w_held w) else w_held w
+               | None => w_held w end in
+  let trk' := match e with
+              | EKey sub k v =>
+                  match find_action c k with
+                  | Some _ => w_trk w
+                  | None => if (v =? 1)%Z then
+                              if sw then w_trk w else
+                                match resolved c (state_of_obs c (w_prev w)) sub k with
+                                | Some p => set N.eqb k p (w_trk w) | None => w_trk w end
+                            else if (v =? 0)%Z then del N.eqb k (w_trk w) else w_trk w
+                  end
+              | _ => w_trk w end in
+  let exp' := match ev_action c e with
+              | Some a => if sw || negb (is_press e) then w_exp w else
+                            match first_complete held' with
+                            | Some pk => reset4 pk (w_exp w)
+                            | None => spec_action (length (mappings c)) a (w_exp w)
+                            end
+              | None => w_exp w end in
+  {| w_kt := next_keys_r (w_kt w) e; w_held := held'; w_prev := o; w_trk := trk'; w_exp := exp'; w_R := recv (w_R w) (o_midi o) |}.
+
+Fixpoint walk (c : config) (f : wctx -> ev -> ostep -> bool) (w : wctx) (h : list ev) (obs : list ostep) (i : nat) : list nat * wctx :=
+  match h, obs with
+  | e :: r, o :: os => let '(fl, w') := walk c f (next_ctx c w e o) r os (S i) in
+                       ((if f w e o then fl else i :: fl), w')
+  | [], [] => ([], w)
+  | _, _ => ([i], w)
+  end.
+
+Definition is_nilb {A} (l : list A) : bool := match l with [] => true | _ => false end.
+
+(* ---------------------------------------------------------------------- C01 *)
+Definition c01_step (c : config) (w : wctx) (e : ev) (o : ostep) : bool :=
+  let kt' := next_keys_r (w_kt w) e in
+  let R' := recv (w_R w) (o_midi o) in
+  negb (is_nilb kt') || is_nilb R'.
+
+Definition c01_failures (k : kcase) : list nat :=
+  let c := kc_cfg k in
+  let '(fl, w) := walk c (c01_step c) (init_ctx c) (kc_events k) (kc_obs k) 0 in
+  fl ++ (if is_nilb (recv (w_R w) (kc_cleanup k)) then [] else [length (kc_events k)]).
+
+(* view: sounding set at quiescent points and after clean-up, and the implementation's note count *)
+Definition pairs_subset (a b : list pair) : bool := forallb (fun p => mem pair_eqb p b) a.
+Definition pairs_seteq (a b : list pair) : bool := pairs_subset a b && pairs_subset b a.
+
+Fixpoint c01_view (kt : list N) (R : list pair) (h : list ev) (obs : list ostep) : list (option (list pair) * nat) :=
+  match h, obs with
+  | e :: r, o :: os => let kt' := next_keys_r kt e in let R' := recv R (o_midi o) in
+                       ((if is_nilb kt' then Some R' else None), o_notes o) :: c01_view kt' R' r os
+  | _, _ => []
+  end.
+Definition c01_view_eqb (a b : option (list pair) * nat) : bool :=
+  Nat.eqb (snd a) (snd b) &&
+  match fst a, fst b with Some x, Some y => pairs_seteq x y | None, None => true | _, _ => false end.
+Definition final_R (obs : list ostep) (cl : list msg) : list pair := recv (recv [] (flat_map o_midi obs)) cl.
+
+Definition c01_mismatch (k : kcase) : option nat :=
+  let '(os, cl) := model_trace (kc_cfg k) (kc_events k) in
+  match first_diff c01_view_eqb 0 (c01_view [] [] (kc_events k) os) (c01_view [] [] (kc_events k) (kc_obs k)) with
+  | Some i => Some i
+  | None => if pairs_seteq (final_R os cl) (final_R (kc_obs k) (kc_cleanup k)) then None else Some (length (kc_events k))
+  end.
+
+(* ---------------------------------------------------------------------- C02 / C03 *)
+Definition all_in (ms allowed : list msg) : bool := forallb (fun m => existsb (nlist_eqb m) allowed) ms.
+
+(* C02: messages of a press are Note On / Note Off of the pair resolved in the observed state; messages of the release
+   are Note Off of the pair recorded at the press; non-panic action keys are silent *)
+Definition c02_step (c : config) (w : wctx) (e : ev) (o : ostep) : bool :=
+  match e with
+  | EKey sub k v =>
+      if (v =? 2)%Z then is_nilb (o_midi o) else
+      match find_action c k with
+      | Some a => if action_eqb a Panic then true else is_nilb (o_midi o)
+      | None =>
+          if (v =? 1)%Z then
+            if swallowed c w e then is_nilb (o_midi o) else
+            match resolved c (state_of_obs c (w_prev w)) sub k with
+            | Some (n, ch) => all_in (o_midi o) [note_on ch n (u8 (d_velocity c)); note_off ch n]
+            | None => is_nilb (o_midi o)
+            end
+          else if (v =? 0)%Z then
+            match get N.eqb k (w_trk w) with
+            | Some (n, ch) => all_in (o_midi o) [note_off ch n]
+            | None => is_nilb (o_midi o)
+            end
+          else true
+      end
+  | _ => true
+  end.
+
+Definition c02_failures (k : kcase) : list nat :=
+  fst (walk (kc_cfg k) (c02_step (kc_cfg k)) (init_ctx (kc_cfg k)) (kc_events k) (kc_obs k) 0).
+
+Definition is_panic_step (c : config) (e : ev) : bool :=
+  match ev_action c e with Some a => action_eqb a Panic | None => false end.
+
+(* view shared by C02 / C03: the messages of every step that is not a panic press *)
+Fixpoint note_steps (c : config) (h : list ev) (obs : list ostep) : list (list msg) :=
+  match h, obs with
+  | e :: r, o :: os => (if is_panic_step c e then [] else o_midi o) :: note_steps c r os
+  | _, _ => []
+  end.
+Definition notes_mismatch (k : kcase) : option nat :=
+  first_diff msgs_eqb 0 (note_steps (kc_cfg k) (kc_events k) (fst (model_trace (kc_cfg k) (kc_events k))))
+             (note_steps (kc_cfg k) (kc_events k) (kc_obs k)).
+
+(* C03: exact messages from the rule, with the holders counted from the monitor's own history-based tracker *)
+Definition c03_step (c : config) (w : wctx) (e : ev) (o : ostep) : bool :=
+  match e with
+  | EKey sub k v =>
+      match find_action c k with
+      | Some _ => true
+      | None =>
+          if (v =? 1)%Z then
+            if swallowed c w e then is_nilb (o_midi o) else
+            match resolved c (state_of_obs c (w_prev w)) sub k with
+            | Some p => msgs_eqb (o_midi o) (press_msgs (cmode_of c) (u8 (d_velocity c)) p (Z.of_nat (mult p (vals (w_trk w)))))
+            | None => is_nilb (o_midi o)
+            end
+          else if (v =? 0)%Z then
+            match get N.eqb k (w_trk w) with
+            | Some p => msgs_eqb (o_midi o) (release_msgs (cmode_of c) p (Z.of_nat (mult p (vals (w_trk w)))))
+            | None => is_nilb (o_midi o)
+            end
+          else true
+      end
+  | _ => true
+  end.
+Definition c03_failures (k : kcase) : list nat :=
+  fst (walk (kc_cfg k) (c03_step (kc_cfg k)) (init_ctx (kc_cfg k)) (kc_events k) (kc_obs k) 0).
+
+(* non-trivial for C03: at some press the pitch already had a holder *)
+Definition c03_collision_step (c : config) (w : wctx) (e : ev) (o : ostep) : bool :=
+  match e with
+  | EKey sub k v =>
+      match find_action c k with
+      | Some _ => true
+      | None => if (v =? 1)%Z && negb (swallowed c w e) then
+                  match resolved c (state_of_obs c (w_prev w)) sub k with
+                  | Some p => Nat.eqb (mult p (vals (w_trk w))) 0 | None => true end
+                else true
+      end
+  | _ => true
+  end.
+Definition c03_has_collision (k : kcase) : bool :=
+  negb (is_nilb (fst (walk (kc_cfg k) (c03_collision_step (kc_cfg k)) (init_ctx (kc_cfg k)) (kc_events k) (kc_obs k) 0))).
+
+(* ---------------------------------------------------------------------- C04 *)
+Definition exp_matches (c : config) (p : Z * Z * N * nat) (o : ostep) : bool :=
+  let '(oc, st, ch, m) := p in
+  (o_oct o =? oc)%Z && (o_semi o =? st)%Z && (o_ch o =? ch) && (o_map o =? N.of_nat m).
+
+Definition is_note_on_msg (m : msg) : bool := match m with [st; _; _] => N.land st 240 =? NOTE_ON | _ => false end.
+
+Definition c04_step (c : config) (w : wctx) (e : ev) (o : ostep) : bool :=
+  let w' := next_ctx c w e o in
+  exp_matches c (w_exp w') o &&
+  match e with
+  | EKey sub k v =>
+      match find_action c k with
+      | Some _ => true
+      | None =>
+          if (v =? 1)%Z && negb (swallowed c w e) then
+            let s := state_of_exp c (w_exp w) in
+            match find_key c s sub k with
+            | None => is_nilb (o_midi o)
+            | Some key =>
+                let '(oc, st, ch, _) := w_exp w in
+                let p := (Z.of_N (k_note key) + 12 * oc + st)%Z in
+                let chn := (ch + k_off key) mod 16 in
+                if ((0 <=? p) && (p <=? 127))%Z then
+                  forallb (fun m => negb (is_note_on_msg m) || nlist_eqb m (note_on chn (Z.to_N p) (u8 (d_velocity c)))) (o_midi o) &&
+                  match cmode_of c with
+                  | COff | CRetrigger => msgs_eqb (o_midi o) [note_on chn (Z.to_N p) (u8 (d_velocity c))]
+                  | _ => true end
+                else is_nilb (o_midi o)
+            end
+          else true
+      end
+  | _ => true
+  end.
+Definition c04_failures (k : kcase) : list nat :=
+  (if exp_matches (kc_cfg k) (w_exp (init_ctx (kc_cfg k))) (w_prev (init_ctx (kc_cfg k))) then [] else [0%nat]) ++
+  fst (walk (kc_cfg k) (c04_step (kc_cfg k)) (init_ctx (kc_cfg k)) (kc_events k) (kc_obs k) 0).
+
+(* view: Note-On triple (or silence) at press steps of note keys, and State() after every step *)
+Definition c04_view_step (c : config) (e : ev) (o : ostep) : list msg * (Z * Z * N * N) :=
+  ((match e with EKey _ k v => match find_action c k with None => if (v =? 1)%Z then filter is_note_on_msg (o_midi o) else [] | Some _ => [] end | _ => [] end),
+   (o_oct o, o_semi o, o_ch o, o_map o)).
+Definition c04_view_eqb (a b : list msg * (Z * Z * N * N)) : bool :=
+  msgs_eqb (fst a) (fst b) &&
+  let '(a1, a2, a3, a4) := snd a in let '(b1, b2, b3, b4) := snd b in (a1 =? b1)%Z && (a2 =? b2)%Z && (a3 =? b3) && (a4 =? b4).
+Fixpoint map2 {A B C} (f : A -> B -> C) (l : list A) (m : list B) : list C :=
+  match l, m with x :: l', y :: m' => f x y :: map2 f l' m' | _, _ => [] end.
+Definition c04_mismatch (k : kcase) : option nat :=
+  first_diff c04_view_eqb 0 (map2 (c04_view_step (kc_cfg k)) (kc_events k) (fst (model_trace (kc_cfg k) (kc_events k))))
+             (map2 (c04_view_step (kc_cfg k)) (kc_events k) (kc_obs k)).
+
+(* ---------------------------------------------------------------------- C05 *)
+Definition c05_failures (k : kcase) : list nat :=
+  indexed_failures (fun o => forallb wf_msgb (o_midi o)) 0 (kc_obs k) ++
+  (if forallb wf_msgb (kc_cleanup k) then [] else [length (kc_obs k)]).
+Definition c05_mismatch (k : kcase) : option nat :=
+  let '(os, cl) := model_trace (kc_cfg k) (kc_events k) in
+  first_diff (fun a b : list bool => Nat.eqb (length a) (length a) && forallb (fun x => x) (map2 Bool.eqb a b) && Nat.eqb (length a) (length b)) 0
+             (map (fun o => map wf_msgb (o_midi o)) os ++ [map wf_msgb cl])
+             (map (fun o => map wf_msgb (o_midi o)) (kc_obs k) ++ [map wf_msgb (kc_cleanup k)]).
+
+(* ---------------------------------------------------------------------- C13 *)
+Definition panic_triggers_ctx (c : config) (w : wctx) (e : ev) : bool :=
+  match e with
+  | EKey _ k v => (v =? 1)%Z && negb (swallowed c w e) &&
+                  match find_action c k with Some Panic => is_nilb (filter (fun pk => pair_complete (w_held w) pk) [PMapping; POctave; PSemitone; PChannel]) | _ => false end
+  | _ => false
+  end.
+Definition c13_step (c : config) (w : wctx) (e : ev) (o : ostep) : bool :=
+  if panic_triggers_ctx c w e then msgs_eqb (o_midi o) (panic_burst (o_ch (w_prev w))) && same_visible (w_prev w) o
+  else true.
+Definition c13_failures (k : kcase) : list nat :=
+  fst (walk (kc_cfg k) (c13_step (kc_cfg k)) (init_ctx (kc_cfg k)) (kc_events k) (kc_obs k) 0).
+Definition c13_has_trigger (k : kcase) : bool :=
+  negb (is_nilb (fst (walk (kc_cfg k) (fun w e o => negb (panic_triggers_ctx (kc_cfg k) w e)) (init_ctx (kc_cfg k)) (kc_events k) (kc_obs k) 0))).
+
+(* view: bytes of the panic steps *)
+Fixpoint panic_steps (c : config) (h : list ev) (obs : list ostep) : list (list msg) :=
+  match h, obs with
+  | e :: r, o :: os => (if is_panic_step c e then o_midi o else []) :: panic_steps c r os
+  | _, _ => []
+  end.
+Definition c13_mismatch (k : kcase) : option nat :=
+  first_diff msgs_eqb 0 (panic_steps (kc_cfg k) (kc_events k) (fst (model_trace (kc_cfg k) (kc_events k))))
+             (panic_steps (kc_cfg k) (kc_events k) (kc_obs k)).
+
+(* twin histories: A = h1 ++ [P down; P up] ++ h2 and B = h1 ++ h2, both run on the implementation; [n] = length h1.
+   Transparency (C13_transparent): A's observations = B's with the two panic steps inserted. *)
+Record tcase := { tc_a : kcase; tc_b : kcase; tc_n : nat }.
+Definition c13_twin_ok (t : tcase) : bool :=
+  let oa := kc_obs (tc_a t) in let ob := kc_obs (tc_b t) in let n := tc_n t in
+  match first_diff ostep_eqb 0 (firstn n oa ++ skipn (n + 2) oa) ob with
+  | Some _ => false
+  | None => msgs_perm (kc_cleanup (tc_a t)) (kc_cleanup (tc_b t)) &&
+            match nth_error oa (S n) with Some o => is_nilb (o_midi o) | None => false end
+  end.
